@@ -143,6 +143,7 @@ func leanFacts(F *Facts) string {
 	w("def sorts : List String := %s\n\n", leanStrList(siteIDs(F.Sorts)))
 	w("def timeNow : List String := %s\n\n", leanStrList(siteIDs(F.TimeNow)))
 	w("def packageVars : List String := %s\n\n", leanStrList(F.PackageVars))
+	w("def uncheckedRowLoops : List String := %s\n\n", leanStrList(F.UncheckedRowLoops))
 	w("def sharedState : List String := %s\n\n", leanStrList(siteIDs(F.SharedState)))
 	w("def apiSharedState : List String := %s\n\n", leanStrList(siteIDs(F.ApiShared)))
 	w("def goStatements : List String := %s\n\n", leanStrList(siteIDs(F.GoStmts)))
